@@ -601,10 +601,13 @@ func exhaustiveC03(thorough bool, emit func(C03Case) bool) {
 	// text field of the FIRST record of a file without headers, and of a later record
 	for _, tok := range gen.HostileTokens {
 		for field := 0; field < 7; field++ {
-			for pos := 0; pos < 2; pos++ {
+			for pos := 0; pos < 3; pos++ {
 				val := append(append(gen.B{}, tok...), 'x')
 				if pos == 1 {
 					val = append(append(gen.B{'x'}, tok...), 'y')
+				}
+				if pos == 2 {
+					val = append(gen.B{}, tok...) // the token is the whole field
 				}
 				r := baseSamRec
 				r.Tags = append([]SamTag(nil), r.Tags...)
